@@ -75,6 +75,8 @@ func parseInputBytes(in parseInput) []byte {
 			s += strings.Repeat("}", r.Intn(depth+1))
 		}
 		return []byte(s)
+	case "soup":
+		return []byte(gen.Soup(rand.New(rand.NewSource(in.Seed*17 + 3))))
 	case "tok":
 		// systematic token rows: one line per last token, so that every pair (rows 0-83) and every triple of
 		// tokens is parsed next to each other in a key, a value and a connection label
@@ -126,14 +128,24 @@ func driveParse(c *Ctx) error {
 			hi = lo + n
 		}
 		kinds := []string{"gen", "mut", "bytes", "bytes", "nest", "key", "mut", "key", "tok", "tok", "tok"}
+		// (index i%11 selects the kind; every 11th input of the first three kinds is a syntax soup instead)
 		for i := lo; i < hi; i++ {
-			inputs = append(inputs, parseInput{Kind: kinds[i%len(kinds)], Seed: int64(i) + 1})
+			k := kinds[i%len(kinds)]
+			if (i/len(kinds))%2 == 1 && (k == "gen" || k == "mut" || k == "key") {
+				k = "soup"
+			}
+			inputs = append(inputs, parseInput{Kind: k, Seed: int64(i) + 1})
 		}
 	}
 	for _, in := range inputs {
 		b := parseInputBytes(in)
 		in.Hex = fmt.Sprintf("%x", b)
+		if skipInput(in) {
+			continue
+		}
+		journal("S", in)
 		evs := parseRun(b)
+		journal("D", in)
 		nt := []string{"C01"}
 		if len(b) <= 300 {
 			nt = append(nt, "C02")
